@@ -108,6 +108,12 @@ class Ctx(object):
         self.obligations.append(o)
         return o
 
+    def violated(self, rid):
+        """has rule rid already reported a violation in this run? (a restructured function may offer fewer instances than
+        confirmed; if one of them is violated the verdict is the violation, not 'analysis broken')"""
+        rid = (self._alias or {}).get(rid, rid) if self._alias is not None else rid
+        return any(o['rule'] == rid and o['status'] == 'violated' for o in self.obligations)
+
     def note(self, s):
         self.notes.append(s)
 
@@ -153,9 +159,13 @@ def run_property(prop, tier, seed, only=None, quiet=False):
         if tier == 'thorough' and hasattr(mod, 'thorough'):
             mod.thorough(ctx)
     except AnalysisBroken as e:
-        say('ANALYSIS-BROKEN property=%s: %s' % (prop, e))
-        write_evidence(ctx, t0, broken=str(e))
-        return 2, ctx
+        if not any(o['status'] == 'violated' for o in ctx.obligations):
+            say('ANALYSIS-BROKEN property=%s: %s' % (prop, e))
+            write_evidence(ctx, t0, broken=str(e))
+            return 2, ctx
+        # obligations that were already decided as violated stand: a named construct breaks a rule. The part of the code
+        # that could not be recognised afterwards is reported as a note, the remaining rules were not evaluated.
+        ctx.note('analysis stopped early: %s (rules after this point were not evaluated)' % e)
     except Exception:
         say('ANALYSIS-BROKEN property=%s: internal error\n%s' % (prop, traceback.format_exc()))
         write_evidence(ctx, t0, broken='internal error')
